@@ -23,14 +23,15 @@ script is true") is judged against; the implementation is never asked.
   filter nested in the path of another filter's script). `matches` therefore takes the root next to the
   element.
 
-Two things the code does differently are parameters here, so that the model of each evaluator can be given
+Two things the code did differently are parameters here, so that the model of each evaluator can be given
 the predicate that evaluator really applies (`Cfg.nestedFilterRoot`, `Cfg.locFilterRootNil`,
-`Cfg.walkFilterRootSelf`; the specification uses none of them):
-* `nest`: script.go evaluates a path operand with `x.Get(v)`, and Get hands ITS argument to the filters of that
-  path as their root: in `$[?(@.q[?(@ == $.a)])]` the inner `$` is the element `@` of the outer filter, not the
-  query argument (known finding C05-nested-filter-root).
-* the root an evaluator passes: `Filter.locate` passes nil, `Filter.Walk` the tested element itself (known
-  findings C11-locate-filter-root, C11-walk-filter-root); see `Driver.rootFor`. -/
+`Cfg.walkFilterRootSelf` — all three repaired in /repo and off in `Cfg.pinned`; the specification uses none of
+them):
+* `nest` (before 22c4424): script.go evaluated a path operand with `x.Get(v)`, and Get hands ITS argument to
+  the filters of that path as their root: in `$[?(@.q[?(@ == $.a)])]` the inner `$` was the element `@` of the
+  outer filter, not the query argument (repaired finding C05-nested-filter-root).
+* the root an evaluator passes (before 049a508): `Filter.locate` passed nil, `Filter.Walk` the tested element
+  itself (repaired findings C11-locate-filter-root, C11-walk-filter-root); see `Driver.rootFor`. -/
 namespace OjgVerif.JPath.FilterSpec
 open OjgVerif OjgVerif.JPath OjgVerif.Script
 
